@@ -290,8 +290,9 @@ pub fn gen_bilinear_scen(rng: &mut Rng, thorough: bool, ext: bool, outside: bool
     let nx = 2 + rng.below(if thorough { 10 } else { 6 }) as usize;
     let ny = 2 + rng.below(if thorough { 10 } else { 6 }) as usize;
     let f32safe = rng.coin();
-    let spx = *rng.pick(&SPACINGS[..5]);
-    let spy = *rng.pick(&SPACINGS[..5]);
+    let pool = [Spacing::Unit, Spacing::Uniform, Spacing::Geometric, Spacing::Clustered, Spacing::Random, Spacing::IndexLike];
+    let spx = *rng.pick(&pool);
+    let spy = *rng.pick(&pool);
     let xax = if rng.chance(1, 4) { None } else { Some(gen_axis(rng, nx, spx, f32safe)) };
     let yax = if rng.chance(1, 4) { None } else { Some(gen_axis(rng, ny, spy, f32safe)) };
     let trail = match rng.below(6) { 0 | 1 | 2 => vec![], 3 => vec![2], 4 => vec![1, 3], _ => vec![2, 1, 2] };
